@@ -4,6 +4,7 @@ Driver for C12. Ops:
   `post <tree>`                 → `ok <hasReq> <hasRes>` | `rej <unknown-modifier|invalid-scope|malformed>`
   `postj <style> <json value>`  → the same, for a body given as a JSON value (`fromJSON`, then `servePOST`)
   `run <q|s> <message>`         → `t=<labels> e=<-|E<l>|M<l,…>>`
+  `xrun <message at request time> <message at response time>` → `<run q on the first> | <run s on the second>` (one exchange)
   `cond <q|s> <cond> <message>` → `1` | `0`            (one matcher on one message)
   `matchhost <host> <pattern>`  → `1` | `0`            (`martianurl.MatchHost`)
   `query <raw>`                 → `k:v,k:v…` | `-`     (`url.ParseQuery`, stably sorted by key)
@@ -285,6 +286,10 @@ def step (s : St) (toks : List String) : St × String :=
   | ["run", k, msg] =>
     match parseKind k, parseMsg msg with
     | some k, some m => (s, showOutcome (run s k m.toMsg))
+    | _, _ => (s, "bad-op")
+  | ["xrun", msg1, msg2] =>
+    match parseMsg msg1, parseMsg msg2 with
+    | some m1, some m2 => (s, showOutcome (xrun s m1 m2).1 ++ " | " ++ showOutcome (xrun s m1 m2).2)
     | _, _ => (s, "bad-op")
   | ["cond", k, c, msg] =>
     match parseKind k, parseCond c, parseMsg msg with
